@@ -239,7 +239,7 @@ class Gen:
             return r.choice(c)
         if t is decimal.Decimal:
             return decimal.Decimal(r.choice(["0", "1.10", "-123456789012345678901234567890.000000001", "0.000001",
-                                             "100", "-0.5"]))
+                                             "100", "-0.5", "1E+5", "1E-7", "2.50E+3"]))
         bounds = {int: (-2 ** 70, 2 ** 70), dt.Long: (-2 ** 63, 2 ** 63 - 1), dt.Int: (-2 ** 31, 2 ** 31 - 1),
                   dt.Short: (-2 ** 15, 2 ** 15 - 1), dt.Byte: (-128, 127), dt.NonPositiveInteger: (-2 ** 70, 0),
                   dt.NegativeInteger: (-2 ** 70, -1), dt.NonNegativeInteger: (0, 2 ** 70),
